@@ -718,6 +718,18 @@ def validate_real_traces(cfgs, records, name, timeout=900, bars=False):
 
 
 def run_real_with_sigint(cfg, name, timeout=60, send_signal=True):
+    """run_real_with_sigint_once, repeated (at most three times) while the HARNESS failed to deliver the signal at the
+    agreed point (a chain waited at the barrier in vain, or the run ended before the signal was sent): such a run says
+    nothing about the sampler.  Still inconclusive after three attempts: {"inconclusive": ...} (reported as drift)."""
+    obs = None
+    for attempt in range(3):
+        obs = run_real_with_sigint_once(cfg, f"{name}" if attempt == 0 else f"{name}_retry{attempt}", timeout, send_signal)
+        if not obs.get("inconclusive"):
+            return obs
+    return obs
+
+
+def run_real_with_sigint_once(cfg, name, timeout=60, send_signal=True):
     """Run the configuration in a child process (own session) and deliver a real SIGINT to the whole
     process group once every chain that can be running waits at the interrupt point."""
     import signal
@@ -748,11 +760,14 @@ def run_real_with_sigint(cfg, name, timeout=60, send_signal=True):
         shutil.rmtree(d, ignore_errors=True)
         return {"exception": "Timeout: sample_chains did not return after the interrupt (hung)"}
     err = p.stderr.read().decode()[-400:]
+    if send_signal and (list(d.glob("barrier_timeout_*")) or not sent):
+        why = "a chain waited at the barrier for 30 s without receiving the signal" if list(d.glob("barrier_timeout_*")) \
+            else "the run ended before the signal was sent"
+        shutil.rmtree(d, ignore_errors=True)
+        return {"exception": None, "inconclusive": f"real SIGINT could not be delivered at the agreed point ({why})"}
     if not (d / "out.json").exists():
         shutil.rmtree(d, ignore_errors=True)
         return {"exception": f"ChildDied: rc={p.returncode} {err}"}
     obs = json.loads((d / "out.json").read_text())
     shutil.rmtree(d, ignore_errors=True)
-    if send_signal and not sent:
-        obs["exception"] = obs.get("exception") or "NoSignal: run finished before the barrier was reached"
     return obs
